@@ -44,8 +44,9 @@ type Node struct {
 
 	// Wrapper: every field is a member of one oneof named "type" (a j5 oneof wrapper message: no label
 	// field, all references single messages); reflected as a OneofSchema whose properties are the members.
-	// Expose (outside the Coq model, oracle-only streams): groups of positions in Refs (FSingle) that form a
-	// proto oneof with (j5.ext.v1.oneof).expose = true, which the reflector registers as a schema of its own.
+	// Expose: groups of consecutive positions in Refs (FSingle) that form a proto oneof with
+	// (j5.ext.v1.oneof).expose = true, which the reflector registers (up front, linked at once) as a schema
+	// of its own, named <Message>_<oneof>; the model name of group gi of node i is OneofName(i, gi).
 	Expose  [][]int `json:"expose,omitempty"`
 	Wrapper bool    `json:"wrapper,omitempty"`
 
@@ -58,9 +59,13 @@ type Node struct {
 // Name is the model's name of node i.
 func Name(i int) int { return i + 1 }
 
-// Rich reports whether the universe uses features outside the Coq model: exposed oneofs.
-// (A oneof wrapper message registers and links its member types exactly like an object
-// with those fields, so it is inside the model.)
+// OneofName is the model's name of the exposed oneof gi of node i.
+func OneofName(i, gi int) int { return 100*(i+1) + gi + 1 }
+
+// Rich reports whether the universe has exposed oneofs. (In the Coq model an exposed oneof is
+// a leaf cell registered before the fields of its message, its members are processed in the
+// message's field loop, and results are regrouped by ConcCorr.regroup. A oneof wrapper message
+// registers and links its member types exactly like an object with those fields.)
 func (u *Universe) Rich() bool {
 	for _, n := range u.Nodes {
 		if len(n.Expose) > 0 {
@@ -82,7 +87,7 @@ type Built struct {
 	U     *Universe
 	Files *protoregistry.Files
 	Msg   map[int]protoreflect.MessageDescriptor
-	ids   map[string]int // j5 full name ("pkg.Name") -> node
+	ids   map[string]int // j5 full name ("pkg.Name") -> model name
 }
 
 func (u *Universe) pkgName(p int) string { return fmt.Sprintf("conc%s.p%d.v1", u.Tag, p) }
@@ -300,7 +305,10 @@ func (u *Universe) Build() (*Built, error) {
 		}
 	}
 	for i, n := range u.Nodes {
-		b.ids[u.pkgName(n.Pkg)+"."+u.typeName(i)] = i
+		b.ids[u.pkgName(n.Pkg)+"."+u.typeName(i)] = Name(i)
+		for gi := range n.Expose {
+			b.ids[fmt.Sprintf("%s.%s_x%d", u.pkgName(n.Pkg), u.typeName(i), gi)] = OneofName(i, gi)
+		}
 		if n.Kind != KMsg {
 			continue
 		}
@@ -368,8 +376,8 @@ func (t *Tree) Linked() bool {
 }
 
 func (b *Built) id(full string) int {
-	if i, ok := b.ids[full]; ok {
-		return Name(i)
+	if n, ok := b.ids[full]; ok {
+		return n
 	}
 	return 999999
 }
@@ -490,11 +498,15 @@ func (u *Universe) GUnfold(k int, i int) *Tree {
 	return t
 }
 
-// CoqGraph renders the universe as a coq graph term.
+// CoqGraph renders the universe as a coq graph term. A message with exposed oneofs refers
+// first to its oneofs (leaf nodes of their own), then to its field types.
 func (u *Universe) CoqGraph() string {
 	var parts []string
 	for i, n := range u.Nodes {
 		var rs []string
+		for gi := range n.Expose {
+			rs = append(rs, fmt.Sprint(OneofName(i, gi)))
+		}
 		for k, j := range n.Refs {
 			if n.Bad == k+1 {
 				rs = append(rs, "0")
@@ -505,6 +517,26 @@ func (u *Universe) CoqGraph() string {
 			rs = append(rs, "0")
 		}
 		parts = append(parts, fmt.Sprintf("(%d,[%s])", Name(i), strings.Join(rs, ";")))
+		for gi := range n.Expose {
+			parts = append(parts, fmt.Sprintf("(%d,[])", OneofName(i, gi)))
+		}
+	}
+	return "[" + strings.Join(parts, ";") + "]"
+}
+
+// CoqExpo renders the exposed oneofs as a coq term of type ConcCorr.expo:
+// per message, in order of declaration, (oneof name, position of its first member among the fields, number of members).
+func (u *Universe) CoqExpo() string {
+	var parts []string
+	for i, n := range u.Nodes {
+		if len(n.Expose) == 0 {
+			continue
+		}
+		var gs []string
+		for gi, grp := range n.Expose {
+			gs = append(gs, fmt.Sprintf("(%d,%d,%d)", OneofName(i, gi), grp[0], len(grp)))
+		}
+		parts = append(parts, fmt.Sprintf("(%d,[%s])", Name(i), strings.Join(gs, ";")))
 	}
 	return "[" + strings.Join(parts, ";") + "]"
 }
